@@ -459,6 +459,7 @@ func generatedInput(c *Ctx, l *core.Lane) (data []byte, name string, fmap []gen.
 		o.Preview = append([]byte{0xff, 0xd8, 0xff, 0xdb}, l.Sub().Bytes(l.Intn(9000))...)
 		o.Surround, o.Use64 = l.Bool(), l.Bool()
 		o.Tail = c.L(l.Name + ":x").Intn(3)
+		o.Brands = c.L(l.Name + ":x").Intn(12)
 		cr := gen.DrawCR3(l, o)
 		return cr.Bytes, "gen:CR3+XMP+PRVW", cr.Map
 	default:
@@ -475,6 +476,15 @@ func generatedInput(c *Ctx, l *core.Lane) (data []byte, name string, fmap []gen.
 			}
 			parts = [][]byte{enc.Bytes}
 			emap = enc.Map
+		}
+		if kind == gen.CHEIF && x.Chance(1, 3) {
+			// HEIF with redundant iloc boxes and a long brand list
+			h := gen.DrawHEIFOpts(l, parts[0], l.Bool(), gen.HEIFOpts{ExtraIloc: 1 + x.Intn(6), Brands: x.Intn(12)})
+			fmap = append(fmap, h.Map...)
+			for _, m := range emap {
+				fmap = append(fmap, gen.FieldSpan{Name: m.Name, Off: m.Off + h.TIFFOff, Len: m.Len})
+			}
+			return h.Bytes, "gen:HEIF", fmap
 		}
 		em := gen.Embed(l, kind, parts, l.Bool())
 		fmap = append(fmap, em.Map...)
